@@ -93,6 +93,7 @@ def handle (op : String) (j : Json) : Except String Json := do
       | .ok r => r
       | .error e => Json.mkObj [("protocol_error", e)]
     pure (Json.mkObj [("ok", true), ("envWF_A", envWF A), ("envWF_B", envWF B), ("rhoWF", ρ.wf),
+      ("envWFU_A", envWFU A), ("envWFU_B", envWFU B),
       ("compatEnv", compatEnv ρ A B),
       ("badPairs", Json.arr ((ρ.filter fun p => !pairOk ρ A B p).map fun p => Json.arr #[Json.str p.1, Json.str p.2]).toArray),
       ("results", Json.arr out)])
